@@ -14,8 +14,8 @@ def b(id, props, path, old, new, note="", more=None):
     V.append(dict(id=id, props=props, kind="break", path=path, old=old, new=new, note=note, more=more))
 
 
-def k(id, props, path, old, new, note="", more=None):
-    V.append(dict(id=id, props=props, kind="keep", path=path, old=old, new=new, note=note, more=more))
+def k(id, props, path, old, new, note="", more=None, transform=None):
+    V.append(dict(id=id, props=props, kind="keep", path=path, old=old, new=new, note=note, more=more, transform=transform))
 
 
 # ------------------------------------------------------------------------------------------------ breaking
@@ -167,3 +167,13 @@ _R = '        """Resets the internal state of the algorithm."""\n\n        self.
 b("reset-forgets-step", ["C19"], A + "nash_mtl.py", _R, _R.replace("        self.step = 0.0\n", ""))
 b("reset-wrong-value", ["C19"], A + "nash_mtl.py", _R, _R.replace("np.ones((1,))", "np.zeros((1,))"))
 b("new-cache-field-not-reset", ["C19"], A + "nash_mtl.py", "            GTG = torch.mm(G, G.t())\n", "            GTG = torch.mm(G, G.t())\n            self.last_gtg = GTG\n")
+
+k("rename-all-locals", ALL, "*", "", "", "every local variable of every function renamed (symtable-based, closures left alone)", transform="rename-locals")
+k("matmul-as-call", ALL, "*", "", "", "every `a @ b` on torch values written torch.matmul(a, b)", transform="matmul-calls")
+k("shape-index-as-size-call", ALL, "*", "", "", "every `x.shape[i]` written x.size(i) (torch modules only)", transform="shape-to-size")
+k("if-else-swapped", ALL, "*", "", "", "every if/else written with the negated test and swapped branches", transform="swap-if-else")
+k("comparisons-flipped", ALL, "*", "", "", "every a < b written b > a (and <=, >, >=)", transform="flip-comparisons")
+k("and-conditions-nested", ALL, "*", "", "", "every `if a and b:` without else written as nested ifs", transform="split-and")
+k("return-through-local", ALL, "*", "", "", "every `return <expr>` written `result_ = <expr>; return result_`", transform="return-temp")
+k("no-else-after-jump", ALL, "*", "", "", "else branches after return/raise/continue/break dedented (pylint no-else-return)", transform="no-else-return")
+k("comprehensions-as-loops", ALL, "*", "", "", "list comprehensions assigned to a local written as append loops (where the loop variable cannot clash)", transform="comp-to-loop")
